@@ -7,7 +7,7 @@ V_TRUST = "Trusted: Verus 0.2026.09.13 / Z3; the prelude's external_body contrac
 claim(
     "C01",
     "other",
-    "Partial (mechanisms 1 and 3 of 4). Unbounded proof (Verus, requires/ensures/invariant/decreases on the function text extracted by span on every run "
+    "Partial (mechanisms 1, 3 and 4, and the unwrap/unreachable sites of mechanism 2 that lie inside the functions listed). Unbounded proof (Verus, requires/ensures/invariant/decreases on the function text extracted by span on every run "
     "from parse/base.rs, sass.rs, stylesheet.rs, media_query.rs, keyframes.rs, at_root_query.rs, value.rs, lexer.rs, error.rs, lib.rs and common.rs: 13 units, 80 functions) that the scanner layer of all "
     "three syntaxes - BaseParser's 20 scanning methods incl. declaration_value, the indented syntax's overrides, indentation look-ahead and comment parsers, the "
     "stylesheet parser's interpolation/comment/url/string/almost-any-value/declaration-value scanners, the media-query, keyframes-selector and @at-root query parsers, "
